@@ -30,6 +30,10 @@ type PlanC17 struct {
 	// NPing[i]: in-process client i pings that many times (the server is then built with
 	// AutoReplyPings; over the other transports the stock ping reply does not decode, see C11)
 	NPing []int `json:"n_ping,omitempty"`
+	// Bcast: the server application sends that many envelopes, each ONE object without a
+	// destination, through the channels of all sessions (a broadcast, as a relay or chat server
+	// does); Rot rotates the order in which the sessions are served
+	Bcast int `json:"bcast,omitempty"`
 }
 
 func genC17(t *simrt.Tape, tier string) interface{} {
@@ -56,6 +60,7 @@ func genC17(t *simrt.Tape, tier string) interface{} {
 		p.SrvDelay = append(p.SrvDelay, []int{0, 1, 20}[t.Draw(3)])
 	}
 	p.Latency = []int{0, 0, 2, 30}[t.Draw(4)]
+	p.Bcast = []int{0, 0, 1, 3}[t.Draw(4)]
 	return p
 }
 
@@ -152,6 +157,7 @@ func runC17(w *World, pi interface{}) {
 		local  string // the node announced to the client
 		remote string
 		got    []string
+		bcTo   map[string]string // broadcast id -> destination it carried on arrival
 		sent   []string
 		done   *Flag
 		err    error
@@ -162,7 +168,7 @@ func runC17(w *World, pi interface{}) {
 	cs := make([]*cst, len(p.Clients))
 	for i := range p.Clients {
 		i := i
-		c := &cst{done: NewFlag()}
+		c := &cst{done: NewFlag(), bcTo: map[string]string{}}
 		cs[i] = c
 		go func() {
 			defer c.done.Set()
@@ -188,6 +194,10 @@ func runC17(w *World, pi interface{}) {
 			c.remote = ses.From.String()
 			go func() {
 				for m := range ch.MsgChan() {
+					if strings.HasPrefix(m.ID, "bc.") {
+						c.bcTo[m.ID] = m.To.String()
+						continue
+					}
 					c.got = append(c.got, m.ID)
 				}
 			}()
@@ -274,9 +284,42 @@ func runC17(w *World, pi interface{}) {
 			w.Eventually(time.Minute, func() bool { return len(c.got) >= len(c.sent) })
 		}()
 	}
+	bcDone := NewFlag()
+	go func() {
+		defer bcDone.Set()
+		if p.Bcast <= 0 {
+			return
+		}
+		// once every client has its session (or has given up)
+		w.Eventually(5*time.Minute, func() bool {
+			for _, c := range cs {
+				if !c.ok && !c.done.IsSet() {
+					return false
+				}
+			}
+			return true
+		})
+		for b := 0; b < p.Bcast && b < 4; b++ {
+			txt := lime.TextDocument("to whom it may concern")
+			m := &lime.Message{}
+			m.SetContent(&txt).SetID(fmt.Sprintf("bc.%d", b))
+			ids := append([]string(nil), f.SessOrd...)
+			for k := range ids {
+				si := f.Sess[ids[(k+b)%len(ids)]]
+				if si == nil || si.Ch == nil {
+					continue
+				}
+				bctx, bcancel := context.WithTimeout(context.Background(), 10*time.Second)
+				_ = si.Ch.SendMessage(bctx, m) // the same object for everybody
+				bcancel()
+			}
+			w.Count("broadcast")
+		}
+	}()
 	for _, c := range cs {
 		c.done.WaitFor(10 * time.Minute)
 	}
+	bcDone.WaitFor(10 * time.Minute)
 	time.Sleep(2 * time.Second)
 	sig := func(what string) string { return what }
 	// distinct ids, matching the server's view
@@ -328,6 +371,23 @@ func runC17(w *World, pi interface{}) {
 		}
 		if len(c.got) < len(c.sent) && !c.aborted {
 			w.Violate("C17.reply-did-not-reach-originator", sig("reply"), "client %d sent %v and received only %v through the handler's sender", i, c.sent, c.got)
+		}
+	}
+	// a broadcast envelope carries no destination or the receiver's own node, never another session's
+	for i, c := range cs {
+		if !c.ok {
+			continue
+		}
+		bids := make([]string, 0, len(c.bcTo))
+		for id := range c.bcTo {
+			bids = append(bids, id)
+		}
+		sortStrings(bids)
+		for _, id := range bids {
+			if to := c.bcTo[id]; to != "" && to != c.local {
+				w.Violate("C17.node-address-crossed-sessions", sig("broadcast"), "client %d (announced node %s) received the broadcast envelope %s addressed to %s, the node of another session", i, c.local, id, to)
+				break
+			}
 		}
 	}
 	for _, pg := range pongs {
